@@ -62,7 +62,7 @@ def sh(cmd, cwd=None, env=None, timeout=3600):
 
 
 # seeded changes that no check reports, by design (see DESIGN.md 13.4)
-NOT_DETECTED_BY_DESIGN = {"seed-C04-i"}
+NOT_DETECTED_BY_DESIGN = {"seed-C04-i", "seed-C15-s"}
 
 
 def changes():
